@@ -1,5 +1,6 @@
 import Hdc.Gen.Ws2d
 import Hdc.Lemmas.Ws2dRows
+import Hdc.Lemmas.ArrCommon
 import Mathlib.Algebra.Field.Basic
 import Mathlib.Tactic.Ring
 /-
@@ -18,9 +19,6 @@ open Hdc.Gen.Ws2d Hdc.Ws2d
 variable {α : Type} [Field α]
 
 /-! ### (a) arrays read as functions -/
-
-/-- an array read as a function (0 outside) -/
-def av (a : Array α) (j : ℕ) : α := a.getD j 0
 
 theorem ix_of_eq (n : ℕ) (i : ℤ) (j : ℕ) (h : i = (j : ℤ)) : ix n i = j := by
   subst h
@@ -47,14 +45,6 @@ theorem rd_wrap_zero {a : Array α} {n k : ℕ} (hs : a.size = n) (hz : ∀ j, k
 omit [Field α] in
 @[simp] theorem size_wr (a : Array α) (i : ℤ) (v : α) : (wr a i v).size = a.size := by
   simp [wr]
-
-theorem av_setIfInBounds_self (a : Array α) (j : ℕ) (v : α) (hj : j < a.size) :
-    av (a.setIfInBounds j v) j = v := by
-  simp [av, Array.getElem?_setIfInBounds_self_of_lt hj]
-
-theorem av_setIfInBounds_ne (a : Array α) (i j : ℕ) (v : α) (h : i ≠ j) :
-    av (a.setIfInBounds i v) j = av a j := by
-  simp [av, Array.getElem?_setIfInBounds_ne h]
 
 /-- `rd_wr_same` -/
 theorem av_wr_self (a : Array α) (i : ℤ) (v : α) (j : ℕ) (h : i = (j : ℤ)) (hj : j < a.size) :
@@ -84,11 +74,6 @@ theorem toList_eq_of_av (z : Array α) (l : List α) (hs : z.size = l.length)
   simp [av, fnl]
 
 /-! ### `range(a, b)` and `range(a, b, -1)` -/
-
-theorem split_getElem {ι : Type} (l pref suff : List ι) (cur : ι) (h : l = pref ++ cur :: suff) :
-    ∃ hlt : pref.length < l.length, l[pref.length] = cur := by
-  subst h
-  exact ⟨by simp, by simp⟩
 
 @[simp] theorem pyRange_length (a b : ℤ) : (pyRange a b).length = (b - a).toNat := by
   simp [pyRange]
@@ -240,12 +225,6 @@ structure Bwd (t : ℕ) (z : Array α) : Prop where
 
 end rows
 
-/-- `a` is `a0` with cell `k` overwritten by `v` -/
-structure Upd (a a0 : Array α) (k : ℕ) (v : α) : Prop where
-  size : a.size = a0.size
-  self : av a k = v
-  other : ∀ j, j ≠ k → av a j = av a0 j
-
 /-- the effect of one Python assignment `a[i] = v` with `0 ≤ i < len(a)` -/
 theorem wr_upd {a a0 : Array α} {i : ℤ} {v : α} (ha : a = wr a0 i v) (k : ℕ)
     (hi : i = (k : ℤ)) (hk : k < a0.size) : Upd a a0 k v := by
@@ -319,22 +298,6 @@ theorem Bwd.toList_eq {z : Array α} (hB : Bwd y w lam 0 z) (h : w.length = y.le
   exact hB.hx j (Nat.zero_le _) hj
 
 end rows
-
-/-! ### naming the variables of the source in the verification conditions -/
-
-open Lean Elab Tactic Meta in
-/-- `py_name x as x'`: give the accessible name `x'` to the most recent inaccessible local called
-    `x` (the verification-condition generator introduces the `let mut` variables of the source
-    under inaccessible names; the most recent one is the current value of the Python variable). -/
-elab "py_name " x:ident " as " x':ident : tactic => withMainContext do
-  let lctx ← getLCtx
-  let mut found : Option FVarId := none
-  for decl in lctx do
-    if decl.userName.hasMacroScopes && decl.userName.eraseMacroScopes == x.getId then
-      found := some decl.fvarId
-  match found with
-  | some fv => liftMetaTactic fun g => return [← g.rename fv x'.getId]
-  | none => throwError "py_name: no inaccessible local named {x.getId}"
 
 /-- closes `source expression = model expression` after the reads have been rewritten: syntactic
     equality (nothing left to do) or a commutative-ring identity in which every quotient is an atom
